@@ -238,3 +238,231 @@ Example C10_hyps_sampler :
   map (pick [1 # 2; 0; 1 # 4; 1 # 4]%Q) [0; 49 # 100; 1 # 2; 74 # 100; 3 # 4; 99 # 100]%Q
   = [0; 0; 2; 2; 3; 3]%nat.
 Proof. vm_compute. reflexivity. Qed.
+
+(* ====================================================================================
+   The construction of the sampled tree itself: Model/Sample.v (grow: Blueprint::tree / sample /
+   touch_any / touch_one / touch_all with Encoder::branches, Node::realize, the explore_*
+   functions and their assertions; infosets: Partition::from(Tree); witness: Profile::witness).
+   The card abstraction `abs`, the sampler's picks `pk` and the dealer `deal` are arbitrary
+   functions.  Predicates: Spec/SpecSample.v.  A node of the tree is given as the subtree
+   hanging from it (subtrees t lists all of them), so that its children are at hand.
+   The tree is grown from any node (g, h) on a tree path from the root of a hand; the root itself
+   is the case h = [], g = g0 (tp_root).
+   ==================================================================================== *)
+From Coq Require Import Permutation.
+From RP Require Import Model.Sample Spec.SpecSample
+                       Proofs.C10_Grow Proofs.C10_Infosets Proofs.C10_View Proofs.C10_SampleEx.
+
+(* (a) every node has the external-sampling shape (traverser: the children's edges are the menu,
+   which has no repetition; opponent and chance: exactly one child, on the menu; nobody to act: no
+   child), every child is the parent after the action of its edge, which Game::is_allowed accepts,
+   every leaf is a finished hand whose payoffs add up to zero, the stored bucket is Node::realize
+   of the node, and the node lies on a tree path in the sense of C10_raise_cap_tree *)
+Theorem C10_grow_shape : forall d hs g0 abs pk deal walker fuel h g t,
+  wf_holes d hs -> root d hs = Some g0 -> tree_path d g0 h g ->
+  grow d abs pk deal fuel walker g h = Some t ->
+  forall s, In s (subtrees t) ->
+    es_node walker s /\ child_ok d s /\ leaf_ok d s /\ bucket_ok abs s /\ on_tree_path d g0 s.
+Proof. exact grow_sound. Qed.
+Print Assumptions C10_grow_shape.
+
+(* the tree of a whole hand, from its root *)
+Theorem C10_tree_shape : forall d hs g0 abs pk deal walker fuel t,
+  wf_holes d hs -> root d hs = Some g0 ->
+  grow d abs pk deal fuel walker g0 [] = Some t ->
+  forall s, In s (subtrees t) ->
+    es_node walker s /\ child_ok d s /\ leaf_ok d s /\ bucket_ok abs s /\ on_tree_path d g0 s.
+Proof.
+  exact (fun d hs g0 abs pk deal walker fuel t Hwf Hroot =>
+           grow_sound d hs g0 abs pk deal walker fuel [] g0 t Hwf Hroot (tp_root d g0)).
+Qed.
+Print Assumptions C10_tree_shape.
+
+(* (b) with a dealer whose cards Game::is_allowed accepts (Game::draw() takes them from
+   Game::deck()) the construction never panics and any fuel beyond max_history - length h
+   suffices, in particular max_history + 1; more fuel gives the same tree *)
+Theorem C10_grow_enough_fuel : forall d hs g0 abs pk deal walker fuel h g,
+  wf_holes d hs -> root d hs = Some g0 -> deal_ok d hs deal -> tree_path d g0 h g ->
+  max_history < Z.of_nat (length h) + Z.of_nat fuel ->
+  exists t, grow d abs pk deal fuel walker g h = Some t.
+Proof. exact grow_total. Qed.
+Print Assumptions C10_grow_enough_fuel.
+
+Theorem C10_grow_terminates : forall d hs g0 abs pk deal walker h g,
+  wf_holes d hs -> root d hs = Some g0 -> deal_ok d hs deal -> tree_path d g0 h g ->
+  exists t, grow d abs pk deal (Z.to_nat (max_history + 1)) walker g h = Some t.
+Proof. exact grow_terminates. Qed.
+Print Assumptions C10_grow_terminates.
+
+Theorem C10_grow_fuel_mono : forall d abs pk deal walker fuel fuel' g h t, (fuel <= fuel')%nat ->
+  grow d abs pk deal fuel walker g h = Some t -> grow d abs pk deal fuel' walker g h = Some t.
+Proof. exact grow_fuel_mono. Qed.
+Print Assumptions C10_grow_fuel_mono.
+
+(* (c) Partition::from, for any tree: the groups together hold exactly the traverser's nodes that
+   have children, each as often as it occurs among the nodes (once); no bucket heads two groups;
+   every group is non-empty and holds nodes of its bucket only.  Hence two listed nodes are in one
+   group iff their buckets are equal. *)
+Theorem C10_infosets_partition : forall walker t,
+  Permutation (concat (map snd (infosets walker t)))
+              (map root_node (filter (is_infoset_node walker) (subtrees t))) /\
+  NoDup (map fst (infosets walker t)) /\
+  forall b ns, In (b, ns) (infosets walker t) -> ns <> [] /\ forall n, In n ns -> n_bucket n = b.
+Proof. exact infosets_partition. Qed.
+Print Assumptions C10_infosets_partition.
+
+Theorem C10_infosets_iff : forall walker t b1 ns1 b2 ns2 n1 n2,
+  In (b1, ns1) (infosets walker t) -> In (b2, ns2) (infosets walker t) -> In n1 ns1 -> In n2 ns2 ->
+  (n_bucket n1 = n_bucket n2 <-> (b1, ns1) = (b2, ns2)).
+Proof. exact infosets_iff. Qed.
+Print Assumptions C10_infosets_iff.
+
+(* every listed node is a traverser node of the tree with a child, and every such node is listed *)
+Theorem C10_infosets_members : forall walker t,
+  (forall b ns n, In (b, ns) (infosets walker t) -> In n ns ->
+     exists s, In s (subtrees t) /\ root_node s = n /\ kids s <> [] /\
+               who_acts (s_game s) walker = WTraverser /\ n_bucket n = b) /\
+  (forall s, In s (subtrees t) -> kids s <> [] -> who_acts (s_game s) walker = WTraverser ->
+     exists ns, In (n_bucket (root_node s), ns) (infosets walker t) /\ In (root_node s) ns).
+Proof. exact (fun walker t => conj (infosets_member walker t) (infosets_complete walker t)). Qed.
+Print Assumptions C10_infosets_members.
+
+(* on a sampled tree no two nodes have the same history, so every traverser node with a child is
+   listed exactly once *)
+Theorem C10_infosets_once : forall d hs g0 abs pk deal walker fuel h g t,
+  wf_holes d hs -> root d hs = Some g0 -> tree_path d g0 h g ->
+  grow d abs pk deal fuel walker g h = Some t ->
+  NoDup (map s_history (subtrees t)) /\
+  NoDup (concat (map snd (infosets walker t))).
+Proof. exact infosets_once. Qed.
+Print Assumptions C10_infosets_once.
+
+(* on a sampled tree the nodes of one information set agree on the recalled history, the menu
+   and the abstraction (the packed paths of the bucket determine the edge lists, C15_path) *)
+Theorem C10_infosets_same : forall d hs g0 abs pk deal walker fuel h g t,
+  wf_holes d hs -> root d hs = Some g0 -> tree_path d g0 h g ->
+  grow d abs pk deal fuel walker g h = Some t ->
+  forall b ns n1 n2, In (b, ns) (infosets walker t) -> In n1 ns -> In n2 ns -> same_infoset_ok abs n1 n2.
+Proof. exact infosets_same. Qed.
+Print Assumptions C10_infosets_same.
+
+(* (d) the menu does not look at hole cards; so if the abstraction depends on the cards of the
+   seat to act and on the public state only, every state that differs from a node's state only in
+   the hole cards of the other seat gets the node's bucket *)
+Theorem C10_menu_public : forall g g' h, same_view g g' ->
+  node_menu g h = node_menu g' h /\ turn_of g = turn_of g'.
+Proof. exact (fun g g' h Hv => conj (same_view_menu g g' h Hv) (same_view_turn g g' Hv)). Qed.
+Print Assumptions C10_menu_public.
+
+(* Encoder::abstraction looks up Game::sweat() = (cards of the seat to act, board): every function
+   of these two is an abstraction of that kind *)
+Theorem C10_abs_of_sweat : forall f : N -> N -> N, abs_own_cards (fun g => f (cards (actor g)) (board g)).
+Proof. exact abs_of_own_cards. Qed.
+Print Assumptions C10_abs_of_sweat.
+
+Theorem C10_bucket_own_cards : forall d hs g0 abs pk deal walker fuel h g t,
+  abs_own_cards abs ->
+  wf_holes d hs -> root d hs = Some g0 -> tree_path d g0 h g ->
+  grow d abs pk deal fuel walker g h = Some t ->
+  forall s g', In s (subtrees t) -> same_view (s_game s) g' ->
+    realize abs g' (s_history s) = Some (n_bucket (root_node s)).
+Proof. exact bucket_own_cards. Qed.
+Print Assumptions C10_bucket_own_cards.
+
+(* (e) Profile::witness, called with the edges of the bucket's menu (anything else trips its
+   assertion): a bucket that is not in the profile gets 1 / n on each of its n edges and every
+   other bucket keeps what it had; a known bucket -- and an empty menu -- leave the profile as it is *)
+Theorem C10_witness_uniform : forall p b es, path_unpack (b_menu b) = Some es ->
+  (lookup b p = None -> es <> [] ->
+     exists p', witness p b es = Some p' /\ uniform_new p' b es /\ others_unchanged p p' b) /\
+  (lookup b p <> None -> witness p b es = Some p) /\
+  (es = [] -> witness p b es = Some p).
+Proof. exact witness_spec. Qed.
+Print Assumptions C10_witness_uniform.
+
+Theorem C10_witness_assert : forall p b es m,
+  path_unpack (b_menu b) = Some m -> m <> es -> witness p b es = None.
+Proof. exact witness_assert. Qed.
+Print Assumptions C10_witness_assert.
+
+(* the witness calls of touch_one / touch_all replayed over a sampled tree: no assertion fails;
+   what was known stays; a bucket first met at a decision node of the tree (of either player)
+   holds 1 / n on each of the n edges of that node's menu; nothing else is added *)
+Theorem C10_witness_tree : forall d hs g0 abs pk deal walker fuel h g t p,
+  wf_holes d hs -> root d hs = Some g0 -> tree_path d g0 h g ->
+  grow d abs pk deal fuel walker g h = Some t ->
+  exists p', witness_tree walker p t = Some p' /\
+    (forall b s, lookup b p = Some s -> lookup b p' = Some s) /\
+    (forall s m, In s (subtrees t) -> is_witnessed walker s = true -> menu_of s = Some m ->
+       lookup (n_bucket (root_node s)) p = None -> uniform_new p' (n_bucket (root_node s)) m) /\
+    (forall b, lookup b p = None ->
+       (forall s, In s (subtrees t) -> is_witnessed walker s = true -> n_bucket (root_node s) <> b) ->
+       lookup b p' = None).
+Proof. exact witness_tree_spec. Qed.
+Print Assumptions C10_witness_tree.
+
+(* (f) every node of the sampled tree lies on a tree path from the root of the hand, so the raise
+   cap of C10_raise_cap_tree holds on every root-to-node path of the sampled tree *)
+Theorem C10_grow_raise_cap : forall d hs g0 abs pk deal walker fuel h g t,
+  wf_holes d hs -> root d hs = Some g0 -> tree_path d g0 h g ->
+  grow d abs pk deal fuel walker g h = Some t ->
+  forall s, In s (subtrees t) ->
+    tree_path d g0 (s_history s) (s_game s) /\
+    max_raise_edges_per_round (s_history s) <= MAX_RAISE_REPEATS + 1.
+Proof. exact grow_raise_cap. Qed.
+Print Assumptions C10_grow_raise_cap.
+
+(* ---------- examples: the hypotheses are satisfiable ---------- *)
+(* a dealer accepted at every reachable chance node, for every deck and all well-formed hole cards:
+   the lowest cards of Game::deck() *)
+Example C10_hyps_deal : forall d hs, wf_holes d hs -> deal_ok d hs (low_deal d).
+Proof. exact low_deal_ok. Qed.
+(* an abstraction of the own cards and the board; two different states with the same view *)
+Example C10_hyps_abs : abs_own_cards ex_abs.
+Proof. exact ex_abs_own. Qed.
+Example C10_hyps_same_view : same_view ex_shoved ex_shoved_other /\ ex_shoved <> ex_shoved_other.
+Proof. exact ex_same_view. Qed.
+(* a node on a tree path (the small blind has gone all-in) and the tree sampled below it for the
+   big blind as traverser: call all-in or fold; after the call three chance nodes and a showdown.
+   Per node: history, bucket, edges of the children, who is to act *)
+Example C10_hyps_node : tree_path Standard ex_root [EShove] ex_shoved.
+Proof. exact ex_shoved_path. Qed.
+Example C10_hyps_grow :
+  option_map (fun t => map (fun s => (s_history s, n_bucket (root_node s), map fst (kids s), turn_of (s_game s)))
+                           (subtrees t))
+             (grow Standard ex_abs ex_pick (low_deal Standard) 10 0 ex_shoved [EShove])
+  = Some [([EShove], (5, 3377699720527872, 37)%N, [EShove; EFold], Choice 0);
+          ([EShove; EShove], (85, 3377699720527872, 1)%N, [EDraw], Chance);
+          ([EShove; EShove; EDraw], (341, 3377699720527879, 1)%N, [EDraw], Chance);
+          ([EShove; EShove; EDraw; EDraw], (4437, 3377699720527887, 1)%N, [EDraw], Chance);
+          ([EShove; EShove; EDraw; EDraw; EDraw], (69973, 3377699720527903, 0)%N, [], Terminal);
+          ([EShove; EFold], (37, 3377699720527872, 0)%N, [], Terminal)].
+Proof. exact ex_tree_nodes. Qed.
+(* its leaves (rewards; chips put in), its one information set, the profile after witness *)
+Example C10_hyps_grow_leaves :
+  option_map (fun t => map (fun s => (settlements Standard (s_game s), map spent (seats (s_game s))))
+                           (filter (fun s => match kids s with [] => true | _ => false end) (subtrees t)))
+             (grow Standard ex_abs ex_pick (low_deal Standard) 10 0 ex_shoved [EShove])
+  = Some [(Some [200; 0], [100; 100]); (Some [0; 102], [2; 100])].
+Proof. exact ex_tree_leaves. Qed.
+Example C10_hyps_grow_infosets :
+  option_map (fun t => map (fun bn => (fst bn, map n_history (snd bn))) (infosets 0 t))
+             (grow Standard ex_abs ex_pick (low_deal Standard) 10 0 ex_shoved [EShove])
+  = Some [((5, 3377699720527872, 37)%N, [[EShove]])].
+Proof. exact ex_tree_infosets. Qed.
+Example C10_hyps_grow_witness :
+  match grow Standard ex_abs ex_pick (low_deal Standard) 10 0 ex_shoved [EShove] with
+  | Some t => witness_tree 0 [] t | None => None end
+  = Some [((5, 3377699720527872, 37)%N, [(EShove, 1 # 2); (EFold, 1 # 2)]%Q)].
+Proof. exact ex_tree_witness. Qed.
+(* with the small blind as traverser the big blind's answer is sampled: one child *)
+Example C10_hyps_grow_opponent :
+  option_map (fun t => map (fun s => (s_history s, map fst (kids s), turn_of (s_game s))) (subtrees t))
+             (grow Standard ex_abs ex_pick (low_deal Standard) 10 1 ex_shoved [EShove])
+  = Some [([EShove], [EFold], Choice 0); ([EShove; EFold], [], Terminal)].
+Proof. exact ex_tree_opponent. Qed.
+(* witness: a bucket whose menu unpacks to two edges, not yet in the (empty) profile *)
+Example C10_hyps_witness :
+  path_unpack (b_menu (5, 3377699720527872, 37)%N) = Some [EShove; EFold] /\
+  lookup (5, 3377699720527872, 37)%N [] = None.
+Proof. split; vm_compute; reflexivity. Qed.
